@@ -2,6 +2,7 @@
 package c18
 
 import (
+	"verif/harness/curves"
 	"fmt"
 	"math/big"
 	"sort"
@@ -176,6 +177,33 @@ func evaluate(g *groups.G, level int, withHash bool) (out []expr, err error) {
 				nk = md(new(big.Int).Mul(s.V, a.k))
 			}
 			emit(val{"Mul(" + s.Name + "," + a.name + ")", nk, g.Point().Mul(sc(s.V), a.p)})
+		}
+	}
+	// Ed25519 family: the encodings with y = p+k (k = 0..18, either sign bit) name the same points as y = k; every
+	// implementation must treat them alike (reject, or decode to the point that re-encodes canonically)
+	if g.Family == "ed25519" {
+		for k := int64(0); k < 19; k++ {
+			for sign := 0; sign < 2; sign++ {
+				v := new(big.Int).Add(curves.EdP, big.NewInt(k))
+				be := v.FillBytes(make([]byte, 32))
+				le := make([]byte, 32)
+				for i := range be {
+					le[31-i] = be[i]
+				}
+				le[31] |= byte(sign << 7)
+				name := fmt.Sprintf("decode(y=p+%d,sign=%d)", k, sign)
+				P := g.Point()
+				if err := P.UnmarshalBinary(le); err != nil {
+					out = append(out, expr{name, nil, []byte("rejected")})
+					continue
+				}
+				b, _ := P.MarshalBinary()
+				out = append(out, expr{name, nil, b})
+				b2, _ := P.Clone().MarshalBinary()
+				out = append(out, expr{name + ".Clone()", nil, b2})
+				b3, _ := g.Point().Add(P, B).MarshalBinary()
+				out = append(out, expr{"Add(" + name + ",B)", nil, b3})
+			}
 		}
 	}
 	// scalars: arithmetic results encode identically everywhere
